@@ -93,95 +93,8 @@ fn esc_char_ascii() {
     run(&[b], b as u32);
 }
 
-#[kani::proof]
-#[kani::unwind(10)]
-#[kani::stub(alloc::fmt::format, stub_format)]
-fn esc_char_two_byte() {
-    let b0: u8 = kani::any();
-    let b1: u8 = kani::any();
-    kani::assume(b0 >= 0xc2 && b0 <= 0xdf && b1 >= 0x80 && b1 <= 0xbf);
-    kani::cover!(b0 == 0xc3 && b1 == 0xa9, "must: e-acute");
-    run(&[b0, b1], ((b0 as u32 & 0x1f) << 6) | (b1 as u32 & 0x3f));
-}
-
-#[kani::proof]
-#[kani::unwind(10)]
-#[kani::stub(alloc::fmt::format, stub_format)]
-fn esc_char_three_byte() {
-    let b0: u8 = kani::any();
-    let b1: u8 = kani::any();
-    let b2: u8 = kani::any();
-    kani::assume(b0 >= 0xe0 && b0 <= 0xef && b1 >= 0x80 && b1 <= 0xbf && b2 >= 0x80 && b2 <= 0xbf);
-    kani::assume(!(b0 == 0xe0 && b1 < 0xa0)); // overlong
-    kani::assume(!(b0 == 0xed && b1 > 0x9f)); // surrogates
-    kani::cover!(b0 == 0xe2 && b1 == 0x82 && b2 == 0xac, "must: euro sign");
-    run(&[b0, b1, b2], ((b0 as u32 & 0x0f) << 12) | ((b1 as u32 & 0x3f) << 6) | (b2 as u32 & 0x3f));
-}
-
-#[kani::proof]
-#[kani::unwind(10)]
-#[kani::stub(alloc::fmt::format, stub_format)]
-fn esc_char_four_byte() {
-    let b0: u8 = kani::any();
-    let b1: u8 = kani::any();
-    let b2: u8 = kani::any();
-    let b3: u8 = kani::any();
-    kani::assume(b0 >= 0xf0 && b0 <= 0xf4 && b1 >= 0x80 && b1 <= 0xbf && b2 >= 0x80 && b2 <= 0xbf && b3 >= 0x80 && b3 <= 0xbf);
-    kani::assume(!(b0 == 0xf0 && b1 < 0x90)); // overlong
-    kani::assume(!(b0 == 0xf4 && b1 > 0x8f)); // beyond U+10FFFF
-    kani::cover!(b0 == 0xf0 && b1 == 0x9f, "must: emoji plane");
-    run(&[b0, b1, b2, b3],
-        ((b0 as u32 & 0x07) << 18) | ((b1 as u32 & 0x3f) << 12) | ((b2 as u32 & 0x3f) << 6) | (b3 as u32 & 0x3f));
-}
-
-/// length of the first JSON character of an escaped body
-fn first_len(o: &[u8]) -> usize {
-    if !o.is_empty() && o[0] == b'\\' {
-        if o.len() > 1 && o[1] == b'u' { 6 } else { 2 }
-    } else {
-        1
-    }
-}
-
-// two / three ASCII characters: the output is the concatenation of valid one-character
-// bodies that decode to the inputs in order (no state leaks between characters)
-#[kani::proof]
-#[kani::unwind(16)]
-#[kani::stub(alloc::fmt::format, stub_format)]
-fn esc_two_ascii() {
-    let a: u8 = kani::any();
-    let b: u8 = kani::any();
-    kani::assume(a < 0x80 && b < 0x80);
-    let buf = [a, b];
-    let s = unsafe { std::str::from_utf8_unchecked(&buf) };
-    let out = escape_json_string(s);
-    let o = out.as_bytes();
-    let n1 = first_len(o);
-    assert!(o.len() > n1, "C20: escape_json_string lost a character");
-    assert!(decode_one(&o[..n1]) == Some(a as u32), "C20: first of two characters not escaped to valid JSON");
-    assert!(decode_one(&o[n1..]) == Some(b as u32), "C20: second of two characters not escaped to valid JSON");
-    kani::cover!(a == b'\\' && b == b'"', "must: backslash then quote");
-    std::mem::forget(out);
-}
-
-#[kani::proof]
-#[kani::unwind(24)]
-#[kani::stub(alloc::fmt::format, stub_format)]
-fn esc_three_ascii() {
-    let a: u8 = kani::any();
-    let b: u8 = kani::any();
-    let c: u8 = kani::any();
-    kani::assume(a < 0x80 && b < 0x80 && c < 0x80);
-    let buf = [a, b, c];
-    let s = unsafe { std::str::from_utf8_unchecked(&buf) };
-    let out = escape_json_string(s);
-    let o = out.as_bytes();
-    let n1 = first_len(o);
-    assert!(o.len() > n1, "C20: escape_json_string lost a character");
-    let n2 = first_len(&o[n1..]);
-    assert!(o.len() > n1 + n2, "C20: escape_json_string lost a character");
-    assert!(decode_one(&o[..n1]) == Some(a as u32), "C20: first of three characters not escaped to valid JSON");
-    assert!(decode_one(&o[n1..n1 + n2]) == Some(b as u32), "C20: second of three characters not escaped to valid JSON");
-    assert!(decode_one(&o[n1 + n2..]) == Some(c as u32), "C20: third of three characters not escaped to valid JSON");
-    std::mem::forget(out);
-}
+// Probed and dropped (DESIGN.md E15): the same obligation for 2-, 3- and 4-byte characters and for
+// two / three ASCII characters. `String::push(c)` on a multi-byte `c`, and any push after the
+// output length has become symbolic (second character), reserve a symbolic number of bytes and
+// CBMC does not finish (300 s). Non-ASCII characters take the `c => out.push(c)` arm unchanged —
+// by reading, not by the solver; outside the claim.
